@@ -44,6 +44,7 @@ def generate(seed, tier):
     qr = random.Random("%s/queries" % seed)
     cfg = cfg_from_record(rec["config"])
     rec["queries"] = [Q.gen_shaped_query(qr, cfg) for _ in range(2)] + [Q.gen_query(qr, cfg, depth=2, simple=True) for _ in range(2)]
+    rec["hold_searcher"] = random.Random("%s/hold" % seed).random() < 0.4
     return rec
 
 
@@ -90,8 +91,38 @@ def check_live_views(actor, where):
     finally:
         r.close()
     rng = s.k.stream("probe")
-    from whoosim import queries as Q
+    words = list(s.cfg.vocab)
+    rng.shuffle(words)
     with actor.ix.searcher() as srch:
+        _search_views(actor, srch, where, docs, mi, live, words)
+    if getattr(actor, "hold_searcher", False):
+        # "every read API": also a long-lived searcher that was used under earlier generations
+        # and brought up to date with refresh(), as the documentation recommends
+        held = getattr(actor, "held", None)
+        if held is not None and getattr(actor, "held_ix", None) is not actor.ix:
+            held = None     # the process that owned it is gone
+        try:
+            if held is None:
+                held = actor.ix.searcher()
+            else:
+                held = held.refresh()
+        except (SimAbort, SimKilled, HarnessError):
+            raise
+        except Exception as e:  # noqa
+            raise Violation("search_raised", "%s: refresh() raised %s: %s" % (where, type(e).__name__, e), sig="refresh_raised:" + exc_sig(e))
+        actor.held, actor.held_ix = held, actor.ix
+        s.count("held_searcher_checks")
+        res = compare_reader(held.reader(), docs, mi.schema, mi.field_names, parts=("count", "docs", "terms", "columns"))
+        if res:
+            raise Violation("deleted_invisible:refreshed_searcher", "%s (refreshed searcher): %s" % (where, res[1]), sig="refreshed_searcher:" + res[0])
+        _search_views(actor, held, where + " (refreshed searcher)", docs, mi, live, words)
+
+
+def _search_views(actor, srch, where, docs, mi, live, words):
+    s = actor.s
+    from whoosh import query
+    from whoosim import queries as Q
+    if True:
         # "searches of any kind": generated boolean trees (intersections, negations, unions)
         for spec in (getattr(actor, "probe_queries", None) or []):
             try:
@@ -128,8 +159,6 @@ def check_live_views(actor, where):
             gdocs = sorted(srch.stored_fields(dn)["u"] for dns in groups.values() for dn in dns)
             if gdocs != live:
                 raise Violation("deleted_invisible:facet", "%s: field facet groups hold uids %s, live %s" % (where, gdocs[:12], live[:12]))
-        words = list(s.cfg.vocab)
-        rng.shuffle(words)
         for w in words[:4]:
             exp = sorted(d.uid for d in docs if w.encode() in d.postings.get("t", {}))
             got = sorted(run(query.Term("t", w)))
@@ -150,6 +179,7 @@ def make_hooks(s, record):
 
     def on_op(actor, i, op):
         actor.probe_queries = record.get("queries")
+        actor.hold_searcher = bool(record.get("hold_searcher"))
 
     def one_per_key(actor):
         if record.get("update_only"):
